@@ -41,6 +41,9 @@ pub fn ref_date(b: &[u8; 6]) -> Option<(u32, u32, u32)> {
 }
 
 /// parse_date_yymmdd on all 6-byte ASCII strings: accepted iff reference-valid, value equal.
+//# harness: name=c11_date_yymmdd prop=C11,C07 tier=quick unwind=8 timeout=600 stubs=fmt
+//# functions: fields::swift_utils::parse_date_yymmdd
+//# bound: all 6-byte ASCII strings (2^42 inputs), unwind 8
 pub fn date_yymmdd() {
     let b: [u8; 6] = any_buf();
     assume(is_ascii(&b, 6));
@@ -65,6 +68,9 @@ pub fn date_yymmdd() {
 }
 
 /// Lengths other than 6 are rejected (0..=8 bytes, any UTF-8), never a panic.
+//# harness: name=c11_date_yymmdd_len prop=C11,C07 tier=quick unwind=10 timeout=600 stubs=fmt
+//# functions: fields::swift_utils::parse_date_yymmdd
+//# bound: all UTF-8 strings of 0..8 bytes with length != 6, unwind 10
 pub fn date_yymmdd_len() {
     let b: [u8; 8] = any_buf();
     let len = any_below(9);
@@ -84,6 +90,9 @@ pub fn date_yymmdd_len() {
 }
 
 /// Six bytes of arbitrary UTF-8: no panic; accepted only if ASCII digits.
+//# harness: name=c11_date_yymmdd_utf8 prop=C11,C07 tier=quick unwind=8 timeout=600 stubs=fmt
+//# functions: fields::swift_utils::parse_date_yymmdd
+//# bound: all 6-byte non-ASCII UTF-8 strings, unwind 8
 pub fn date_yymmdd_utf8() {
     let b: [u8; 6] = any_buf();
     assume(is_utf8(&b, 6));
@@ -139,6 +148,9 @@ pub fn ref_time(b: &[u8; 4]) -> Option<(u32, u32)> {
     Some((hh, mm))
 }
 
+//# harness: name=c11_time_hhmm prop=C11,C07 tier=quick unwind=8 timeout=600 stubs=fmt
+//# functions: fields::swift_utils::parse_time_hhmm
+//# bound: all 4-byte ASCII strings, unwind 8
 pub fn time_hhmm() {
     let b: [u8; 4] = any_buf();
     assume(is_ascii(&b, 4));
@@ -161,6 +173,9 @@ pub fn time_hhmm() {
     }
 }
 
+//# harness: name=c11_time_hhmm_utf8 prop=C11,C07 tier=quick unwind=8 timeout=600 stubs=fmt
+//# functions: fields::swift_utils::parse_time_hhmm
+//# bound: all UTF-8 strings of 0..6 bytes other than 4 ASCII bytes, unwind 8
 pub fn time_hhmm_utf8() {
     let b: [u8; 6] = any_buf();
     let len = any_below(7);
